@@ -141,27 +141,25 @@ Definition mod_str (m : emod) (v : sstring) : outcome sval :=
   | MContains => Ok (VStr (contains_mod v))
   end.
 
+(* "[y for x in l for y in f(x)]" where every f(x) has one element; the first exception wins *)
+Definition omap {A B} (f : A -> outcome B) : list A -> outcome (list B) :=
+  fix go (l : list A) : outcome (list B) :=
+    match l with
+    | [] => Ok []
+    | y :: r => obind (f y) (fun a => obind (go r) (fun b => Ok (a :: b)))
+    end.
+
 (* SigmaModifier.apply: expansions are mapped element-wise and wrapped again; type_check rejects
    everything that is not a string. Each of these modifiers returns exactly one value. *)
 Fixpoint apply_val (m : emod) (x : sval) : outcome sval :=
   match x with
   | VStr v => mod_str m v
   | VOther => SigmaErr E_Type
-  | VExp l =>
-      obind ((fix go (l : list sval) : outcome (list sval) :=
-                match l with
-                | [] => Ok []
-                | y :: r => obind (apply_val m y) (fun a => obind (go r) (fun b => Ok (a :: b)))
-                end) l)
-            (fun l' => Ok (VExp l'))
+  | VExp l => obind (omap (apply_val m) l) (fun l' => Ok (VExp l'))
   end.
 
 (* one modifier over the value list of the detection item *)
-Fixpoint apply_all (m : emod) (xs : list sval) : outcome (list sval) :=
-  match xs with
-  | [] => Ok []
-  | x :: r => obind (apply_val m x) (fun a => obind (apply_all m r) (fun b => Ok (a :: b)))
-  end.
+Definition apply_all (m : emod) (xs : list sval) : outcome (list sval) := omap (apply_val m) xs.
 
 (* SigmaDetectionItem.apply_modifiers *)
 Fixpoint apply_chain (ms : list emod) (xs : list sval) : outcome (list sval) :=
